@@ -14,6 +14,11 @@ import (
 	"verif/harness/fw"
 )
 
+// the injectable clock is pinned (C19 varies it on purpose)
+var fixedNow = time.Date(2017, 7, 2, 12, 0, 0, 0, time.UTC)
+
+func init() { astisub.Now = func() time.Time { return fixedNow } }
+
 func tierN(tier string, quick, thorough int64) int64 {
 	if tier == "thorough" {
 		return thorough
